@@ -134,7 +134,7 @@ func splitTags(s string) ([]string, string) {
 }
 
 var clauseKinds = map[string]bool{"requires": true, "ensures": true, "invariant": true, "modifies": true, "sets": true,
-	"havoc": true, "decreases": true, "flags": true, "results": true, "assert": true, "cases": true, "exempt": true, "check": true, "local": true}
+	"havoc": true, "decreases": true, "flags": true, "results": true, "assert": true, "cases": true, "exempt": true, "check": true, "local": true, "params": true}
 
 // splitTopLevelArgs splits "a S1, b S2" respecting parentheses.
 func splitTop(s string, sep byte) []string {
@@ -549,6 +549,11 @@ func parseClause(c *Clause) error {
 		// check <discipline>: the function is verified for an engine-level discipline (e.g. "check locks")
 		c.Names = strings.Fields(text)
 		return nil
+	case "params":
+		// params <name0> <name1> ...: the parameter names (receiver first) the clauses of this contract were written
+		// with; when a parameter is renamed the old name keeps designating the same position
+		c.Names = strings.Fields(text)
+		return nil
 	case "local":
 		// local <name> = result [k] of <callee> [#n]   |   local <name> = accumulator [#n]
 		// A description of the local variable a clause names, used to find it again when it has been renamed.
@@ -745,4 +750,30 @@ func (lib *SpecLib) LoadAllSpecs(dir string) error {
 		}
 	}
 	return nil
+}
+
+// paramAliases: old parameter names (from the contract's "params" clause) that differ from the current ones, by position.
+func (c *Contract) paramAliases(cur []string) map[string]int {
+	if c == nil {
+		return nil
+	}
+	var out map[string]int
+	for _, cl := range c.Clauses {
+		if cl.Kind != "params" || len(cl.Names) != len(cur) {
+			continue
+		}
+		isCur := map[string]bool{}
+		for _, n := range cur {
+			isCur[n] = true
+		}
+		for i, old := range cl.Names {
+			if old != cur[i] && old != "_" && !isCur[old] {
+				if out == nil {
+					out = map[string]int{}
+				}
+				out[old] = i
+			}
+		}
+	}
+	return out
 }
